@@ -88,7 +88,7 @@ class Contract:
 
 class LoopSpec:
     def __init__(self, qualname, ordinal, invariants=(), decreases=None, modifies=(),
-                 ghost=None, hints=(), havoc_locals=None, step=(), step_ret=(), local_kinds=None, post_hints=(), step_brk=(), entry_snap=None):
+                 ghost=None, hints=(), havoc_locals=None, step=(), step_ret=(), local_kinds=None, post_hints=(), step_brk=(), entry_snap=None, step_back=()):
         self.qualname = qualname
         self.ordinal = ordinal
         self.invariants = _clauses(invariants, f"inv{ordinal}_")
@@ -105,6 +105,7 @@ class LoopSpec:
         self.step = _clauses(step, f"step{ordinal}_")
         self.step_ret = _clauses(step_ret, f"stepret{ordinal}_")     # only at `return` inside the loop
         self.step_brk = _clauses(step_brk, f"stepbrk{ordinal}_")     # only at `break`
+        self.step_back = _clauses(step_back, f"stepback{ordinal}_")  # only at back edges (end of body / continue)
         # names bound to the values of spec expressions at LOOP ENTRY (usable in the invariants/steps of this loop and of
         # loops nested in it): e.g. {"n1": "len(xs)"}
         self.entry_snap = OrderedDict(entry_snap or {})
